@@ -77,6 +77,12 @@ public:
   /** Returns the size of the XBW structure */
   uint size() const;
 
+  /** Writes the structure in the layout the stream constructor reads
+   * (number of nodes, mapping, labels, bitmaps last and A).
+   * @param out output stream
+   */
+  void save(std::ostream &out) const;
+
 protected:
   /** number of nodes in the tree */
   uint nodesCount;
